@@ -39,7 +39,14 @@ def pinned():
 
 def _check_table(n, with_lock, stats, owners=None, offsets=None):
     if owners is not None:
-        table = arbsim.transition_samples(n, with_lock, owners, offsets)
+        try:
+            table = arbsim.transition_samples(n, with_lock, owners, offsets)
+        except RecursionError:
+            # an arbiter this wide cannot be handed to the simulator (expression depth): whether it
+            # should is not a question of fairness - no verdict from this probe
+            stats.label("wide_arbiter_not_simulable")
+            stats.nontrivial = True
+            return
         stats.label("table_wide")
         for (g, R, stb, lock, ack), g2 in sorted(table.items()):
             req = [(R >> i) & 1 for i in range(n)]
